@@ -172,6 +172,11 @@ def run_shard(params, rec):
 def run_function(R, rec, g, t, o, bk, f, ef, inputs, wants):
     """run all inputs; returns None (agree / unsupported) or (input, want, got)"""
     ret64 = f.ret == 64
+    if g.undecodable_delay_slot(ef["code"]):
+        # e.g. ROTRV (MIPS32r2) in the delay slot of a branch: not a decodable instruction sequence
+        rec.count("unsupported:%s:undecodable_delay_slot" % t)
+        rec.count("unsupported_total:%s" % t)
+        return None
     for inp, want in zip(inputs, wants):
         a, b, c, mem = inp
         rec.ev()
